@@ -137,6 +137,7 @@ type MatOpts struct {
 	Policy       string                            // C19: redaction policy of the trigger environment
 	NoName       bool                              // C19: contact without a name
 	ResumePolicy string                            // C19: every resume carries an environment with this redaction policy
+	CrossExit    bool                              // definition fault: the second category of every wait-less router names an exit of ANOTHER node
 	QueryGroup   bool                              // fault group_added: the assets hold a query-based group that matches the contact
 	InspectW     *lineWriter                       // C20: write inspection-vs-execution lines here
 	insp         *inspector
@@ -241,6 +242,16 @@ func matNode(b *Behaviour, f, n int, d NodeDef, opts *MatOpts) M {
 		panic("unknown node kind " + d.Kind)
 	}
 	node["actions"] = acts
+	if opts.CrossExit && (d.Kind == "split" || d.Kind == "enter") {
+		// an invalid definition: either it is refused when the flow is loaded, or - if it gets through - runs still have to walk the graph
+		of, on := f, n%b.NNodes+1
+		if b.NNodes == 1 {
+			of, on = f%b.NFlows+1, 1
+		}
+		if of != f || on != n {
+			node["router"].(M)["categories"].([]M)[1]["exit_uuid"] = exitUUID(of, on, 1)
+		}
+	}
 	if opts.Extra != nil {
 		opts.Extra(f, n, d, node)
 	}
